@@ -1,10 +1,144 @@
 import Driver.Wire
+import Sio.Model.Admin
 open Lean (Json)
 namespace Sio.KAdmin
-open Sio.Wire
+open Sio.Wire Sio.Admin
 
-/-- stub: replaced by the kernel's line-protocol handler -/
-def step (_ : Unit) (_ : Json) : Except String (Unit × Json) := throw "kernel not implemented"
+/-
+  Ops (one JSON object per line):
+    {"op":"pyeq","a":J,"b":J}                               -> {"eq":bool}
+    {"op":"admit","auth":AUTH,"payload":{"some":J}|{"none":true}}
+        AUTH = {"missing":true} | {"val":J} | {"pred":PRED}
+        PRED = "isNull" | "truthy" | {"const":b} | {"eq":J} | {"hasKey":[k,J]} | {"getKey":k}
+             | {"not":PRED} | {"or":[PRED,PRED]}
+        -> {"configure":"disabled|dict|list|pred"|{"exc":..}, "arg":J, "connect":bool|{"exc":..},
+            "admit":bool|null, "spec":bool|null}
+       `connect` is the line-by-line transcription `adminConnect`, `admit` the gate on the
+       classified configuration, `spec` the right-hand side of theorem `C18.admit_iff` evaluated
+       directly; `arg` is what the handler receives for this payload (`present`).
+    {"op":"registry","mode":[cp],"read_only":bool}           -> {"registered":[[cp]],"wrapped":[str]}
+    {"op":"resolve","mode":[cp],"read_only":bool,"admin_ns":[cp],"ns":[cp],"ev":J,"args":[J],
+     "fn":[[ns,ev]],"cls":[[ns,[method]]]}
+        -> what `Sio.Server.resolve` yields for the event in the registry after instrument()
+-/
+
+partial def predOfJson (j : Json) : Except String Pred :=
+  match j with
+  | Json.str "isNull" => pure .isNull
+  | Json.str "truthy" => pure .truthy
+  | _ =>
+    match j.getObjVal? "const" with
+    | .ok v => do let b ← v.getBool?; pure (.const b)
+    | .error _ =>
+    match j.getObjVal? "eq" with
+    | .ok v => do let x ← jOfJson v; pure (.eq x)
+    | .error _ =>
+    match j.getObjVal? "hasKey" with
+    | .ok v => do
+      let a ← v.getArr?
+      match a.toList with
+      | [k, x] => do let ks ← strOfJson k; let xv ← jOfJson x; pure (.hasKey ks xv)
+      | _ => throw "bad hasKey"
+    | .error _ =>
+    match j.getObjVal? "getKey" with
+    | .ok v => do let ks ← strOfJson v; pure (.getKey ks)
+    | .error _ =>
+    match j.getObjVal? "not" with
+    | .ok v => do let p ← predOfJson v; pure (.not p)
+    | .error _ =>
+    match j.getObjVal? "or" with
+    | .ok v => do
+      let a ← v.getArr?
+      match a.toList with
+      | [p, q] => do let pp ← predOfJson p; let qq ← predOfJson q; pure (.or pp qq)
+      | _ => throw "bad or"
+    | .error _ => throw "bad predicate"
+
+def authOfJson (j : Json) : Except String AuthArg :=
+  match j.getObjVal? "val" with
+  | .ok v => do let x ← jOfJson v; pure (.val x)
+  | .error _ =>
+  match j.getObjVal? "pred" with
+  | .ok v => do let p ← predOfJson v; pure (.fn p.eval)
+  | .error _ => pure .missing
+
+def cfgName : AuthCfg → String
+  | .disabled => "disabled" | .dict _ => "dict" | .list _ => "list" | .pred _ => "pred"
+
+/-- the right-hand side of `C18.admit_iff`, computed without `admit` -/
+def spec : AuthCfg → J → Bool
+  | .disabled, _ => true
+  | .dict d, a => pyEq a (.obj d)
+  | .list ds, a => ds.any (fun d => pyEq a d)
+  | .pred p, a => p a
+
+def strListOfJson (j : Json) : Except String (List Str) := do
+  let a ← j.getArr?
+  a.toList.mapM strOfJson
+
+def resolvedToJson : Server.Resolved → Json
+  | .fn (.fn ns ev) args => Json.mkObj [("fn", Json.arr #[strToJson ns, strToJson ev]),
+      ("args", Json.arr (args.map jToJson).toArray)]
+  | .fn (.cls ns m) args | .clsCall (.cls ns m) args =>
+      Json.mkObj [("cls", Json.arr #[strToJson ns, strToJson m]),
+                  ("args", Json.arr (args.map jToJson).toArray)]
+  | .clsCall (.fn ns ev) args => Json.mkObj [("fn", Json.arr #[strToJson ns, strToJson ev]),
+      ("args", Json.arr (args.map jToJson).toArray)]
+  | .clsNoMethod => Json.mkObj [("clsNoMethod", Json.bool true)]
+  | .notHandled => Json.mkObj [("notHandled", Json.bool true)]
+
+def step (_ : Unit) (j : Json) : Except String (Unit × Json) := do
+  let op ← (← j.getObjVal? "op").getStr?
+  if op == "pyeq" then
+    let a ← jOfJson (← j.getObjVal? "a")
+    let b ← jOfJson (← j.getObjVal? "b")
+    pure ((), Json.mkObj [("eq", Json.bool (pyEq a b))])
+  else if op == "admit" then
+    let auth ← authOfJson (← j.getObjVal? "auth")
+    let payload ← optJOfJson (← j.getObjVal? "payload")
+    let arg := present payload
+    let conn : Json := match adminConnect auth arg with
+      | .ok b => Json.bool b
+      | .error e => excJson e
+    let (cfgJ, admJ, specJ) : Json × Json × Json := match configure auth with
+      | .ok c => (Json.str (cfgName c), Json.bool (admit c arg), Json.bool (spec c arg))
+      | .error e => (excJson e, Json.null, Json.null)
+    pure ((), Json.mkObj [("configure", cfgJ), ("arg", jToJson arg), ("connect", conn),
+                          ("admit", admJ), ("spec", specJ)])
+  else if op == "registry" then
+    let mode ← strOfJson (← j.getObjVal? "mode")
+    let ro ← (← j.getObjVal? "read_only").getBool?
+    pure ((), Json.mkObj [("registered", Json.arr ((registered mode ro).map strToJson).toArray),
+                          ("wrapped", Json.arr ((wrapped mode).map Json.str).toArray)])
+  else if op == "resolve" then
+    let mode ← strOfJson (← j.getObjVal? "mode")
+    let ro ← (← j.getObjVal? "read_only").getBool?
+    let adminNs ← strOfJson (← j.getObjVal? "admin_ns")
+    let ns ← strOfJson (← j.getObjVal? "ns")
+    let ev ← jOfJson (← j.getObjVal? "ev")
+    let args ← (← (← j.getObjVal? "args").getArr?).toList.mapM jOfJson
+    let fnA ← (← j.getObjVal? "fn").getArr?
+    let fns ← fnA.toList.mapM (fun e => do
+      let l ← strListOfJson e
+      match l with
+      | [n, e] => pure (n, e)
+      | _ => throw "bad fn entry")
+    let clsA ← (← j.getObjVal? "cls").getArr?
+    let clss ← clsA.toList.mapM (fun e => do
+      let p ← e.getArr?
+      match p.toList with
+      | [n, ms] => do let nn ← strOfJson n; let m ← strListOfJson ms; pure (nn, m)
+      | _ => throw "bad cls entry")
+    let app : Server.Registry :=
+      { fn := fun n e => fns.contains (n, e),
+        fnNs := fun n => fns.any (fun p => p.1 = n),
+        cls := fun n => clss.any (fun p => p.1 = n),
+        clsMethod := fun n m => clss.any (fun p => p.1 = n ∧ p.2.contains m) }
+    let reg := instrumentReg app adminNs mode ro
+    match Server.resolve reg ns ev args with
+    | .ok r => pure ((), resolvedToJson r)
+    | .error e => pure ((), excJson e)
+  else throw s!"unknown op {op}"
 
 def main : IO Unit := lineLoop () step
 
